@@ -14,7 +14,7 @@ import re
 from . import common as cm
 from . import c05_gen as G
 
-REQ = ["Scope.PySyntax", "Scope.Finder", "Scope.PySem", "Scope.Wire"]
+REQ = ["Scope.PySyntax", "Scope.Finder", "Scope.PySem", "Scope.Fragment", "Scope.Check", "Scope.Wire"]
 
 # the Python functions Scope/Finder.v transcribes
 ANCHORS = ["pyflyby._autoimp:ScopeStack", "pyflyby._autoimp:symbol_needs_import", "pyflyby._autoimp:_MissingImportFinder",
@@ -36,11 +36,15 @@ def gen_ns(r):
 def make_case(seed, i, kind=None):
     r = cm.rng(seed, "c05", i)
     if kind is None:
-        kind = "exec" if i % 4 != 3 else "free"
+        # 2/10 stage-2 programs (functions and lambdas, no class / comprehension), 1/10 stage 1, the rest as before
+        kind = {0: "s2", 1: "s2", 2: "s1"}.get(i % 10, "exec" if i % 4 != 3 else "free")
     if kind == "exec":
         prog = G.gen_program(r, True)
     elif kind == "s1":
-        prog = G.gen_program(r, True, classes=False, funcs=False, comps=r.random() < .5)
+        prog = G.gen_program(r, True, classes=False, funcs=False, comps=False)
+        kind = "exec"
+    elif kind == "s2":
+        prog = G.gen_program(r, True, classes=False, funcs=True, comps=False)
         kind = "exec"
     else:
         prog = G.gen_program(r, False)
@@ -259,6 +263,9 @@ def decode(model, ids):
            "scan": {"missing": [[ln, dn(d)] for ln, d in model["scan"]["missing"]],
                     "unused": [[ln, dn(f), dn(a)] for ln, f, a in model["scan"]["unused"]]},
            "trace": [[ln, rev[n], r] for ln, n, r in model["trace"]]}
+    for k in ("stage", "star_free", "sound", "precise", "exact"):
+        if k in model:
+            out[k] = model[k]
     if "scandoc" in model:
         out["scandoc"] = {"missing": [[ln, dn(d)] for ln, d in model["scandoc"]["missing"]],
                           "unused": [[ln, dn(f), dn(a)] for ln, f, a in model["scandoc"]["unused"]]}
@@ -582,6 +589,14 @@ def check_case(ctx, case, src, ids, im, mo):
     """im = implementation result, mo = decoded model result"""
     rec = {"i": case.get("i", 0), "kind": case["kind"], "src": src, "ns": case["ns"], "prog": case["prog"]}
     nontriv = False
+    # 0. which fragment the program falls in, and the theorem statements of that fragment evaluated on it
+    stage = mo.get("stage", 0) if mo.get("star_free", True) else 0
+    ctx.bump("fragment:stage%d" % stage if stage else "fragment:outside")
+    if stage == 1 and not mo.get("exact", True):
+        ctx.disagreement("statement check: C05_missing_exact_stage1 is false on this program", rec, None, mo.get("trace"))
+    if stage >= 1 and not (mo.get("sound", True) and mo.get("precise", True)):
+        ctx.disagreement("statement check: stage-%d soundness / precision is false on this program" % stage, rec,
+                         {"sound": mo.get("sound"), "precise": mo.get("precise")}, mo.get("trace"))
     # 1. correspondence
     if isinstance(im["fm"], dict) or "exc" in im["scan"]:
         ctx.bump("impl_exception")
